@@ -27,6 +27,10 @@ pub struct FCfg {
     pub core: bool,
     /// chain / heterosegmented (bond integrals are exercised)
     pub chain: bool,
+    /// part of the quick 2-D / 3-D grid search (configurations with multi-segment vector weighted densities)
+    pub nd: bool,
+    /// also on the cylindrical grid in the quick tier
+    pub cyl: bool,
 }
 
 pub trait Visitor {
@@ -87,7 +91,7 @@ fn saftvrq(names: &[&str]) -> Arc<SaftVRQMieFunctional> {
 fn cfg_saft<F: HelmholtzEnergyFunctional>(name: &str, f: &Arc<F>, t: f64, x: &[f64], sigma: f64, core: bool, chain: bool) -> FCfg {
     // compute_max_density: total density at the model's max_eta (0.5 for all SAFT-type functionals here)
     let rho_max = f.compute_max_density(&Array1::from_vec(x.to_vec()));
-    FCfg { name: name.into(), t, x: x.to_vec(), rho_per_eta: rho_max / 0.5, sigma, core, chain }
+    FCfg { name: name.into(), t, x: x.to_vec(), rho_per_eta: rho_max / 0.5, sigma, core, chain, nd: false, cyl: false }
 }
 
 fn cfg_fmt(name: &str, sigma: &[f64], x: &[f64], core: bool) -> FCfg {
@@ -100,16 +104,33 @@ fn cfg_fmt(name: &str, sigma: &[f64], x: &[f64], core: bool) -> FCfg {
         sigma: sigma[0],
         core,
         chain: false,
+        nd: false,
+        cyl: false,
     }
 }
 
 pub fn for_each(full: bool, only: Option<&str>, v: &mut impl Visitor) {
+    for_each_sel(full, only, false, v)
+}
+
+/// the configurations of the support search: the core ones plus those marked for the 2-D / 3-D grids
+pub fn for_each_support(full: bool, only: Option<&str>, v: &mut impl Visitor) {
+    for_each_sel(full, only, true, v)
+}
+
+fn for_each_sel(full: bool, only: Option<&str>, with_nd: bool, v: &mut impl Visitor) {
+    // configurations with component-wise vector weighted densities for more than one segment (association in mixtures /
+    // heterosegmented molecules, SAFT-VRQ Mie non-additive hard spheres in mixtures) and FMT vector weights in a mixture
+    let nd_names = ["fmt_wb_mix", "pcsaft_water_methanol", "gc_isobutane_ethanol", "saftvrq_h2_ne"];
+    let cyl_names = ["pcsaft_water_methanol"];
     macro_rules! go {
         ($cfg:expr, $f:expr) => {{
-            let c: FCfg = $cfg;
+            let mut c: FCfg = $cfg;
+            c.nd = nd_names.contains(&c.name.as_str());
+            c.cyl = cyl_names.contains(&c.name.as_str());
             let sel = match only {
                 Some(o) => c.name == o,
-                None => full || c.core,
+                None => full || c.core || (with_nd && c.nd),
             };
             if sel {
                 v.visit(&c, &$f);
@@ -172,6 +193,10 @@ pub fn for_each(full: bool, only: Option<&str>, v: &mut impl Visitor) {
         let f = saftvrq(&["hydrogen"]);
         go!(cfg_saft("saftvrq_h2", &f, 25.0, &[1.0], 3.0, false, false), f);
     }
+    {
+        let f = saftvrq(&["hydrogen", "neon"]);
+        go!(cfg_saft("saftvrq_h2_ne", &f, 30.0, &[0.5, 0.5], 2.9, false, false), f);
+    }
 }
 
 // ------------------------------------------------------------------------------------------------
@@ -182,6 +207,9 @@ pub enum GridKind {
     Cartesian,
     Spherical,
     Polar,
+    Cartesian2,
+    Cartesian3,
+    Cylindrical,
 }
 
 impl GridKind {
@@ -190,6 +218,9 @@ impl GridKind {
             GridKind::Cartesian => "cartesian",
             GridKind::Spherical => "spherical",
             GridKind::Polar => "polar",
+            GridKind::Cartesian2 => "cartesian2",
+            GridKind::Cartesian3 => "cartesian3",
+            GridKind::Cylindrical => "cylindrical",
         }
     }
 }
@@ -200,7 +231,65 @@ pub fn make_grid(kind: GridKind, points: usize, length: f64) -> Grid {
         GridKind::Cartesian => Grid::Cartesian1(Axis::new_cartesian(points, l, None)),
         GridKind::Spherical => Grid::Spherical(Axis::new_spherical(points, l)),
         GridKind::Polar => Grid::Polar(Axis::new_polar(points, l)),
+        _ => panic!("make_grid: 1-D kinds only"),
     }
+}
+
+pub fn make_grid_nd(kind: GridKind, axes: &[(usize, f64)]) -> Grid {
+    let cart = |i: usize| Axis::new_cartesian(axes[i].0, Length::from_reduced(axes[i].1), None);
+    match kind {
+        GridKind::Cartesian | GridKind::Spherical | GridKind::Polar => make_grid(kind, axes[0].0, axes[0].1),
+        GridKind::Cartesian2 => Grid::Cartesian2(cart(0), cart(1)),
+        GridKind::Cartesian3 => Grid::Cartesian3(cart(0), cart(1), cart(2)),
+        GridKind::Cylindrical => Grid::Cylindrical { r: Axis::new_polar(axes[0].0, Length::from_reduced(axes[0].1)), z: cart(1) },
+    }
+}
+
+/// coordinates and integration weights (product of the axes' weights, hook `Axis::verif_integration_weights`) of all grid
+/// points in row-major order
+pub fn flat_points(grid: &Grid) -> (Vec<Vec<f64>>, Array1<f64>) {
+    let axes = grid.axes();
+    let mut pts: Vec<Vec<f64>> = vec![vec![]];
+    let mut w: Vec<f64> = vec![1.0];
+    for ax in axes {
+        let aw = ax.verif_integration_weights();
+        let mut np = Vec::new();
+        let mut nw = Vec::new();
+        for (p, wp) in pts.iter().zip(&w) {
+            for i in 0..ax.grid.len() {
+                let mut q = p.clone();
+                q.push(ax.grid[i]);
+                np.push(q);
+                nw.push(wp * aw[i]);
+            }
+        }
+        pts = np;
+        w = nw;
+    }
+    (pts, Array1::from_vec(w))
+}
+
+/// smooth positive modulation along the axes other than the first (1 x points, broadcast over the segments)
+pub fn modulation(pts: &[Vec<f64>], lens: &[f64]) -> Array2<f64> {
+    Array2::from_shape_fn((1, pts.len()), |(_, k)| {
+        (1..lens.len()).map(|d| 1.0 + 0.15 * (std::f64::consts::PI * pts[k][d] / lens[d] * (d as f64)).cos()).product::<f64>()
+    })
+}
+
+/// C-infinity bump in the axes other than the first, supported in the middle 70 % of each of them
+pub fn transverse_bump(pts: &[Vec<f64>], lens: &[f64]) -> Array2<f64> {
+    Array2::from_shape_fn((1, pts.len()), |(_, k)| {
+        (1..lens.len())
+            .map(|d| {
+                let u = (pts[k][d] - 0.52 * lens[d]) / (0.35 * lens[d]);
+                if u.abs() >= 1.0 {
+                    0.0
+                } else {
+                    (1.0 - 1.0 / (1.0 - u * u)).exp()
+                }
+            })
+            .product::<f64>()
+    })
 }
 
 /// integration weights of a 1-D grid (hook `Axis::verif_integration_weights`, cfg feos_verif)
